@@ -1,6 +1,32 @@
+(* C10 — bidirected_to_unobserved_confounder: the canonical DAG of an ADMG.  All four theorems are unbounded
+   (every graph, every naming function that meets the freshness obligation [fresh_ok]). *)
 From Coq Require Import List.
-From PG Require Import Graph.MGraph C10.Model.
-(* placeholder until the proofs land *)
-Theorem c10_placeholder : forall g f, V (canon_model g f) = V (canon_model g f).
-Proof. reflexivity. Qed.
-Print Assumptions c10_placeholder.
+From PG Require Import Base.ListSet Graph.MGraph Graph.MSep C10.Model C10.Spec C10.ProofsSep C10.Proofs.
+
+(* nodes kept, directed edges kept, only directed edges, one new parentless node per bidirected edge whose only
+   children are the two endpoints, nothing else *)
+Theorem canon_structure : canon_structure_stmt.
+Proof. exact canon_structure_proof. Qed.
+Print Assumptions canon_structure.
+
+(* the result is a well-formed DAG *)
+Theorem canon_dag : canon_dag_stmt.
+Proof. exact canon_dag_proof. Qed.
+Print Assumptions canon_dag.
+
+(* d-separation in the result = m-separation in G, by the PATH definition (msep of Graph/MSep.v), for all X,Y,Z of original nodes *)
+Theorem canon_preserves_sep : canon_preserves_sep_stmt.
+Proof. exact canon_preserves_sep_proof. Qed.
+Print Assumptions canon_preserves_sep.
+
+(* the same for the boolean oracle run by the harness *)
+Theorem canon_preserves_sep_dec : forall g fresh X Y Z, wf g -> U g = nil -> fresh_ok g fresh ->
+  incl X (V g) -> incl Y (V g) -> incl Z (V g) ->
+  msep_dec (canon_model g fresh) X Y Z = msep_dec g X Y Z.
+Proof. exact canon_preserves_sep_dec_proof. Qed.
+Print Assumptions canon_preserves_sep_dec.
+
+(* the naming function of the extracted run_case meets the obligation *)
+Theorem fresh_above_meets_obligation : forall g, fresh_ok g (fresh_above g).
+Proof. exact fresh_above_ok. Qed.
+Print Assumptions fresh_above_meets_obligation.
